@@ -21,9 +21,10 @@ from . import common as C
 from .flow import Engine
 from .engines_k3spsc import _strip, _fn_bodies, _paren_end
 
-# "0" = /repo as it is.  After the proposed repair of F-36-oneshot is applied to /repo set bit 0 ("1"),
-# after the repair of F-37-oneshot set bit 1 ("2"); both: "3".
-CFG = os.environ.get("VERIF_K3ONESHOT_CFG", "0")
+# The model describes /repo WITH the repairs docs/fixes/k3oneshot_F-36.diff (bit 0) and
+# docs/fixes/k3oneshot_F-37.diff (bit 1): "3".  ("0" = the code before the repairs; the refuted-theorems'
+# witnesses in coq/Props are stated for that cfg.  VERIF_K3ONESHOT_CFG overrides, for experiments.)
+CFG = os.environ.get("VERIF_K3ONESHOT_CFG", "3")
 
 # ---------------------------------------------------------------------------------- D3 extractor
 ORD = {"Relaxed": "Rlx", "Acquire": "Acq", "Release": "Rel", "AcqRel": "AcqRel", "SeqCst": "SeqCst"}
